@@ -144,7 +144,16 @@ pub fn check_spec(rep: &mut Report, spec: &Spec, seed: u64) {
             return;
         }
     };
-    check_minimize(rep, &mut auto, "builder", "autospec", &case, seed, None);
+    if !check_minimize(rep, &mut auto, "builder", "autospec", &case, seed, None) {
+        return;
+    }
+    // and in the other order: prune first, then minimize (all states reachable: exact state count applies)
+    if let Ok(Ok(mut a2)) = build_spec(spec) {
+        if guard(|| a2.remove_unreachable_states()).is_ok() {
+            rep.inc("pruned_builder_automata");
+            check_minimize(rep, &mut a2, "builder+pruned", "autospec", &case, seed, None);
+        }
+    }
 }
 
 pub fn check_program(prog: &Program, seed: u64, thorough: bool, rep: &mut Report) {
